@@ -38,9 +38,22 @@ var c08Queries = []string{
 	"SELECT id, n FROM {T}",
 	"SELECT id FROM {T} WHERE a + 1 > 2",
 	"SELECT CONCAT(b, id) AS k FROM {T} WHERE a <= 2",
+	// a whole-table aggregate evaluated per row: it ranges over the inner array the row belongs to
+	"SELECT id FROM {T} WHERE a >= AVG(a)",
+	"SELECT id, MAX(a) - a AS below, COUNT(*) AS n FROM {T}",
+	"SELECT id FROM {T} WHERE a = MIN(a) OR a = MAX(a)",
+	// options and functions that read the query's options inside the inner arrays
+	"SELECT id FROM {T} WHERE a > GETVAR('min')",
+	"SELECT id, GETVAR('tag') AS tag, CONSTANT('c') AS c FROM {T} WHERE a >= CONSTANT('c')",
+	"SELECT SETVAR('last', id), GETVAR('last') AS last FROM {T}",
+}
+
+func c08Opts(vars map[string]any) []genql.QueryOption {
+	return []genql.QueryOption{genql.WithVars(vars), genql.WithConstants(map[string]any{"c": 2.0})}
 }
 
 type c08 struct {
+	vars map[string]any // the variable map shared by the per-inner-array reference executions of one document
 	tier string
 	docs [][]any // the value of m (arrays of arrays ...)
 }
@@ -135,7 +148,7 @@ func (p *c08) expected(r *core.CaseResult, q string, v []any, flat *[]any) (any,
 		}
 	}
 	if isRows && len(v) > 0 || len(v) == 0 {
-		o := gq.Run(map[string]any{"leaf": gq.Clone(any(v))}, strings.ReplaceAll(q, "{T}", "leaf"))
+		o := gq.Run(map[string]any{"leaf": gq.Clone(any(v))}, strings.ReplaceAll(q, "{T}", "leaf"), c08Opts(p.vars)...)
 		r.Execs++
 		if o.Failed() {
 			return nil, false
@@ -176,6 +189,11 @@ func (p *c08) RunCase(i int) *core.CaseResult {
 	r := &core.CaseResult{}
 	q := c08Queries[i%len(c08Queries)]
 	mix := i >= len(c08Queries)
+	if mix && (strings.Contains(q, "AVG(") || strings.Contains(q, "MAX(") || strings.Contains(q, "MIN(") || strings.Contains(q, "COUNT(")) {
+		// a whole-table aggregate ranges over the flattened source under mix=>: the concatenation law
+		// is a statement about per-row filters and projections only
+		return r
+	}
 	shape := "filter"
 	if !strings.Contains(q, "WHERE") {
 		shape = "projection"
@@ -185,6 +203,7 @@ func (p *c08) RunCase(i int) *core.CaseResult {
 	genql.VerifResetSelectorCache()
 	for _, m := range p.docs {
 		var flat []any
+		p.vars = map[string]any{"min": 1.0, "tag": "x"}
 		want, ok := p.expected(r, q, m, &flat)
 		if !ok {
 			r.Unspecified++
@@ -204,7 +223,7 @@ func (p *c08) RunCase(i int) *core.CaseResult {
 		} else {
 			sql = strings.ReplaceAll(q, "{T}", "m")
 		}
-		o := gq.Run(doc, sql)
+		o := gq.Run(doc, sql, c08Opts(map[string]any{"min": 1.0, "tag": "x"})...)
 		r.Execs++
 		got := outcome(o)
 		w := gq.Render(want)
@@ -219,8 +238,8 @@ func (p *c08) RunCase(i int) *core.CaseResult {
 			if mix {
 				other = strings.ReplaceAll(q, "{T}", "m")
 			}
-			gq.Run(map[string]any{"m": gq.Clone(any(m))}, other)
-			again := outcome(gq.Run(map[string]any{"m": gq.Clone(any(m))}, sql))
+			gq.Run(map[string]any{"m": gq.Clone(any(m))}, other, c08Opts(map[string]any{"min": 1.0, "tag": "x"})...)
+			again := outcome(gq.Run(map[string]any{"m": gq.Clone(any(m))}, sql, c08Opts(map[string]any{"min": 1.0, "tag": "x"})...))
 			r.Execs += 2
 			if again != got {
 				r.Fail("C08|cache|nested-and-mix-interfere", fmt.Sprintf("%s on m=%s returned %s, but %s after %s had been evaluated in the same process", sql, gq.Render(m), got, again, other), map[string]any{"sql": sql, "then": other, "doc": map[string]any{"m": m}})
@@ -243,7 +262,7 @@ func (p *c08) RunCase(i int) *core.CaseResult {
 
 func (p *c08) Meta() core.Meta {
 	return core.Meta{
-		Rule: "one case per (query, kind): 24 filter / projection queries (every WHERE operator family, non-idempotent select lists such as a+1 AS a, star plus expression, CASE, function call) run on a FROM path that resolves to arrays of arrays: every outer array of 1..2 (thorough 3) inner arrays, each any sequence of <= 2 rows over 3 archetypes (ragged, empty), plus depth-3 nestings; the nested result must equal the per-inner-array executions of the same query, and `mix=>` + one query must equal their concatenation. non-trivial = some inner result is non-empty",
+		Rule: "one case per (query, kind): 30 filter / projection queries (every WHERE operator family, non-idempotent select lists such as a+1 AS a, star plus expression, CASE, function calls, whole-table aggregates evaluated per row, GETVAR / SETVAR / CONSTANT under WithVars and WithConstants) run on a FROM path that resolves to arrays of arrays: every outer array of 1..2 (thorough 3) inner arrays, each any sequence of <= 2 rows over 3 archetypes (ragged, empty), plus depth-3 nestings; the nested result must equal the per-inner-array executions of the same query, and `mix=>` + one query must equal their concatenation. non-trivial = some inner result is non-empty",
 		Assumptions: []string{"only WHERE and the select list are claimed for nested sources (the property's statement); ORDER BY / LIMIT / aggregates over nested sources are not exercised"},
 		Bounds:      map[string]any{"queries": len(c08Queries), "documents": len(p.docs)},
 		Exhaustive:  true,
